@@ -79,16 +79,51 @@ impl Value {
             _ => panic!("harness: Value::u on {:?}", self),
         }
     }
+    /// Debug rendering cut after about 300 bytes.  The formatter is stopped once the limit is reached, so the cost
+    /// does not grow with the size of the value (it matters under the interpreters).
     pub fn short(&self) -> String {
-        let s = format!("{:?}", self);
-        if s.len() > 300 {
-            let mut k = 300;
+        struct Cut(String);
+        impl std::fmt::Write for Cut {
+            fn write_str(&mut self, s: &str) -> std::fmt::Result {
+                self.0.push_str(s);
+                if self.0.len() > 300 {
+                    Err(std::fmt::Error)
+                } else {
+                    Ok(())
+                }
+            }
+        }
+        let mut w = Cut(String::new());
+        let cut = std::fmt::write(&mut w, format_args!("{:?}", self)).is_err();
+        let s = w.0;
+        if cut || s.len() > 300 {
+            let mut k = 300.min(s.len());
             while !s.is_char_boundary(k) {
                 k -= 1;
             }
             format!("{}…", &s[..k])
         } else {
             s
+        }
+    }
+    /// Structural hash (stands in for hashing the Debug rendering).
+    pub fn hash64(&self) -> u64 {
+        use crate::rng::{hash_str, mix};
+        fn seq(tag: u64, f: &[Value]) -> u64 {
+            let mut h = mix(tag ^ (f.len() as u64) << 8);
+            for v in f {
+                h = mix(h ^ v.hash64());
+            }
+            h
+        }
+        match self {
+            Value::U(x) => mix(1 ^ mix(*x as u64) ^ mix((*x >> 64) as u64).rotate_left(17)),
+            Value::Unit => mix(2),
+            Value::Arr(f) => seq(3, f),
+            Value::Struct(f) => seq(4, f),
+            Value::Var(t, f) => seq(5 ^ ((*t as u64) << 32), f),
+            Value::Seq(f) => seq(6, f),
+            Value::Str(s) => mix(7 ^ hash_str(s)),
         }
     }
 }
